@@ -81,7 +81,9 @@ def get_version(line: str) -> Version:
                 version = ml.Value
                 return version
 
-        except MatchError:
+        except Exception:
+            # a line that is valid in one version can be rejected by the info parser of
+            # another one with a different exception (unknown attribute: ValueError)
             pass
 
     return version
